@@ -342,7 +342,7 @@ func TestC03_RandomPrograms(t *testing.T) {
 		"random programs biased to loops: @each over literal and data arrays (ints, strings, bools, objects; length 0..4; non-arrays as an error class), @for with bounds within +-3 and a terminating step, nested to depth 3 with both kinds, bodies with markers, element and loop.* prints, @break/@continue/@breakIf/@continueIf (conditions on loop.index/first/last, loop variables, truthiness table) bare and under nested @if/@elseif, @else bodies (with control directives acting on the enclosing loop); expected rendering from the reference interpreter. Non-trivial: a loop with >= 2 passes in which a control directive fired, or nested loops with loop.* read, or an @else body taken. Distinct by hash of source + data.")
 	defer c.Finish()
 	in := interp()
-	runRapid(t, c, 12000, 40000, func(rt *rapid.T) {
+	runRapid(t, c, 12000, 120000, func(rt *rapid.T) {
 		env := genProgEnv().Draw(rt, "data")
 		g := newProgGen(rt, env)
 		g.wIf, g.wLoop, g.wAssign, g.wCtl = 3, 6, 1, 5
